@@ -301,16 +301,43 @@ class Raises:
 
   @staticmethod
   def _guarded_nonzero(node, e) -> bool:
-    """`e` is tested `> 0` / `!= 0` by an enclosing if / conditional expression that contains node in its true branch."""
+    """`e` is known non-zero where node is evaluated: a condition that reaches node (enclosing test, or early exit before
+    it) has `e > 0` / `e != 0` as a conjunct when it holds, or `e <= 0` / `e == 0` / `e < 1` as a disjunct when it is known to fail."""
+    from . import match as _m
     t = unparse(e).replace(" ", "")
+    fnode = node
+    while fnode is not None and not isinstance(fnode, (ast.FunctionDef, ast.AsyncFunctionDef)):
+      fnode = parent(fnode)
+    if fnode is None:
+      return False
+
+    def parts(test, op):
+      if isinstance(test, ast.BoolOp) and isinstance(test.op, op):
+        out = []
+        for v in test.values:
+          out.extend(parts(v, op))
+        return out
+      return [test]
+    for test, pol in _m.reaching_conditions(node, fnode):
+      if isinstance(test, ast.UnaryOp) and isinstance(test.op, ast.Not):
+        test, pol = test.operand, not pol
+      if pol:
+        for c in parts(test, ast.And):
+          tt = unparse(c).replace(" ", "")
+          if tt in (f"{t}>0", f"{t}!=0", f"0<{t}", f"{t}>=1", f"0!={t}"):
+            return True
+      else:
+        for c in parts(test, ast.Or):
+          tt = unparse(c).replace(" ", "")
+          if tt in (f"{t}<=0", f"{t}==0", f"{t}<1", f"0>={t}", f"0=={t}", f"not{t}"):
+            return True
+    # the conditional expression `a / e if e > 0 else b`
     cur, par = node, parent(node)
     while par is not None and not isinstance(par, (ast.FunctionDef, ast.AsyncFunctionDef)):
-      if isinstance(par, (ast.If, ast.IfExp)):
-        body = par.body if isinstance(par.body, list) else [par.body]
-        if any(cur is b or any(cur is y for y in ast.walk(b)) for b in body):
-          tt = unparse(par.test).replace(" ", "")
-          if f"{t}>0" in tt or f"{t}!=0" in tt or f"0<{t}" in tt:
-            return True
+      if isinstance(par, ast.IfExp):
+        tt = unparse(par.test).replace(" ", "")
+        if any(cur is y for y in ast.walk(par.body)) and (f"{t}>0" in tt or f"{t}!=0" in tt or f"0<{t}" in tt):
+          return True
       cur, par = par, parent(par)
     return False
 
